@@ -329,6 +329,9 @@ func runC07(t *Trace, r *Rng, tier string, _ []string) {
 			var u uint64
 			for {
 				u = c07RandBits(r, bnd)
+				if d < 2 && r.Chance(70) { // most indexes hold both infinities
+					u = []uint64{0x7ff0000000000000, 0xfff0000000000000}[d]
+				}
 				f := math.Float64frombits(u)
 				if !math.IsNaN(f) && u != 1<<63 { // NaN and -0 are outside the property
 					break
@@ -358,7 +361,9 @@ func runC07(t *Trace, r *Rng, tier string, _ []string) {
 					return nil
 				}
 				var u uint64
-				if r.Chance(50) {
+				if r.Chance(15) { // the extremes: infinities and the largest finite values
+					u = []uint64{0x7ff0000000000000, 0xfff0000000000000, 0x7fefffffffffffff, 0xffefffffffffffff}[r.Intn(4)]
+				} else if r.Chance(50) {
 					u = vals[r.Intn(nDocs)] + uint64(r.Intn(3)) - 1
 				} else {
 					u = c07RandBits(r, bnd)
@@ -386,7 +391,6 @@ func runC07(t *Trace, r *Rng, tier string, _ []string) {
 			}
 			a, b := c07Adj(minP, maxP, imP, iMP)
 			op := fmt.Sprintf("nrq %s %s %s %s %s", optBits(minP), optBits(maxP), optBool(imP), optBool(iMP), strings.Join(valToks, " "))
-			t.Emit("adj", true, fmt.Sprintf("adj %s %s %s %s", optBits(minP), optBits(maxP), optBool(imP), optBool(iMP)), fmt.Sprintf("%d %d", a, b))
 			if a <= b {
 				if _, over := countWalk(a, b, 1<<22); over {
 					t.Emit("nrq-"+engine, true, op, "WALK-OVER-BUDGET")
